@@ -56,6 +56,8 @@ def gen_cases(tier, seed):
         if rng.random() < 0.35:
             cfgd["penalty"] = "DualNorm"
         cfgd["iteration_limit"] = int(rng.choice([60, 150]))
+        if rng.random() < 0.25:
+            cfgd.update(C.rare_params(rng, allow_unvalidated=True))
         cfgd["rho"] = float(10.0 ** rng.uniform(-8, 1)) if rng.random() < 0.85 else float(10.0 ** rng.uniform(1, 20))
         case = work.mk_case(fam, [seed, k], cfgd)
         r = rng.random()
